@@ -5,6 +5,7 @@
 //   N <thread#> <name>                       set_thread_name
 //   E <thread#> <end_ns>                     set_thread_end_time
 //   L <name>                                 add_lib (debug id derived from the name) -> lib #k
+//   Y <lib#> <addr:size:name>...             set_lib_symbol_table (size 0 = unknown size)
 //   M <proc#> <lib#> <start> <end> <rel>     add_lib_mapping
 //   S <thread#> <time_ns> <w> <frames..>     add_sample; frames root first: l<name> (label) | a<hex> (instruction pointer) | r<hex> (return address)
 //                                            (an empty frame list = no stack)
@@ -97,6 +98,17 @@ pub fn run(line: &str) -> String {
                         code_id: None,
                         arch: None,
                     }));
+                }
+                "Y" => {
+                    let syms: Vec<Symbol> = t[2..]
+                        .iter()
+                        .map(|x| {
+                            let p: Vec<&str> = x.split(':').collect();
+                            let size: u32 = p[1].parse().unwrap();
+                            Symbol { address: p[0].parse().unwrap(), size: if size == 0 { None } else { Some(size) }, name: p[2].to_string() }
+                        })
+                        .collect();
+                    profile.set_lib_symbol_table(libs[t[1].parse::<usize>().unwrap()], std::sync::Arc::new(SymbolTable::new(syms)));
                 }
                 "M" => profile.add_lib_mapping(
                     procs[t[1].parse::<usize>().unwrap()],
